@@ -231,7 +231,10 @@ def run(ctx):
               "log(8,0)", "log(8,-2)", "1.5e999", "10^5000", "range(1,5,0)", "range(1,5,-1)", "sample(Geometric(1))",
               "P(Binomial(3,0.5) <= 5/2)", "5!/(0*3!)", "3! m", "abs(3! m)", "instant", "15.0e308", "options(title: \"a\")", "1 kilodegC",
               "1 μs to s", "sin(1e308*10.5)", "x = 1.5e308*10; round(x-x)", "1e308*10.5", "1e308*10.5 - 1e308*10.5", "floor(1e308*10.5)",
-              "#2024-01-01# + (1e308*10.5) s", "㎞ +", "㎏ ㎏ )", "1 ½", "㎞ ?", "", " ", "(", "1 +", "\"abc", "#2024", "0b102", "x", "1/0", "2^(1/2)", "{x : 1 < 2}"]
+              "#2024-01-01# + (1e308*10.5) s", "㎞ +", "㎏ ㎏ )", "1 ½", "㎞ ?", "", " ", "(", "1 +", "\"abc", "#2024", "0b102", "x", "1/0", "2^(1/2)", "{x : 1 < 2}",
+              "n = 2; {n : n in 1..(n+1)}", "{true : true in 1..(true+1)}", "k = {1,2}; {k : k in k}", "x = 1; {x : x in {x, x+1}, x in {x}}", "log(8, 1)", "log(1, 1)",
+              "b = 1; log(1000, b)", "{log(x, 1) : x in 1..3}", "max({#2020-01-01#, #2021-06-01#})", "min({[1,2],[3,4]})", "max({x! : x in 1..4})",
+              "3! in {1, 2, 6}", "C(5,2) in 1..10", "4! == \"24\"", "max({{1},{2}})", "1/sin(1e-320)", "sin(1/sin(1e-320))", "cos(0, x: 0)"]
     cases = [("corpus", t, True) for t in corpus] + cases
     if ctx.get("replay"):
         r = json.load(open(ctx["replay"]))
